@@ -300,7 +300,7 @@ func runC20(r *core.Run) {
 	{
 		park := make(chan struct{})
 		var pw sync.WaitGroup
-		n := r.N(3000, 9000)
+		n := r.N(1100, 9000)
 		base := parkedCount.Load()
 		for i := 0; i < n; i++ {
 			pw.Add(1)
